@@ -204,14 +204,36 @@ def gen_strip():
          _norm(sr_hpp), "StylesheetRoot::shouldStripSourceNode: declarations exist and the node is flagged whitespace")
     ib_raw = function_body(sr, r"StylesheetRoot::internalShouldStripSourceNode\s*\([^)]*\)\s*const\s*\{", "internalShouldStripSourceNode")
     ib = _norm(ib_raw)
-    need(lit("const XalanNode*const parent=textNode.getParentNode(); if(parent==0) return false; if(parent->getNodeType()==XalanNode::ELEMENT_NODE){"
-             " const XalanElement*const theElement= static_cast<const XalanElement*>(parent); typedef WhitespaceElementsVectorType::const_iterator const_iterator;"
-             " const_iterator i=m_whitespaceElements.begin(); do { const XalanSpaceNodeTester&theTester=*i; if(theTester(*theElement)!=XPath::eMatchScoreNone){"
-             " return theTester.getType()==XalanSpaceNodeTester::eStrip; } ++i; } while(i!=m_whitespaceElements.end()); } return false; }") + "$", ib,
-         "internalShouldStripSourceNode: parent element, first matching tester decides, default preserve")
-    facts["consults_xml_space"] = bool(re.search(r"xml:space|XMLSPACE|xmlspace|getAttribute", ib_raw, re.I))
-    need(lit("StylesheetExecutionContextDefault::shouldStripSourceNode(const XalanText&node){ assert(@ANY@); return m_stylesheetRoot->shouldStripSourceNode(node); }"),
-         _norm(secd), "StylesheetExecutionContextDefault::shouldStripSourceNode forwards to the stylesheet root")
+    head_rx = lit("const XalanNode*const parent=textNode.getParentNode(); if(parent==0) return false; if(parent->getNodeType()==XalanNode::ELEMENT_NODE){"
+                  " const XalanElement*const theElement= static_cast<const XalanElement*>(parent); typedef WhitespaceElementsVectorType::const_iterator const_iterator;"
+                  " const_iterator i=m_whitespaceElements.begin(); do { const XalanSpaceNodeTester&theTester=*i; if(theTester(*theElement)!=XPath::eMatchScoreNone){")
+    tail_rx = lit("} ++i; } while(i!=m_whitespaceElements.end()); } return false; }") + "$"
+    plain = re.search(head_rx + lit("return theTester.getType()==XalanSpaceNodeTester::eStrip;") + tail_rx, ib)
+    with_xs = re.search(head_rx + lit("return theTester.getType()==XalanSpaceNodeTester::eStrip&& isXMLSpacePreserved(theElement)==false;") + tail_rx, ib)
+    if not plain and not with_xs:
+        raise AnchorError("anchor not found: internalShouldStripSourceNode: parent element, first matching tester decides (optionally overridden by xml:space), default preserve")
+    facts["consults_xml_space"] = bool(with_xs)
+    if with_xs:
+        xb = _norm(function_body(sr, r"isXMLSpacePreserved\s*\(\s*const\s+XalanNode\*\s*theElement\s*\)\s*\{", "isXMLSpacePreserved"))
+        need(lit("while(theElement!=0&& theElement->getNodeType()==XalanNode::ELEMENT_NODE){ const XalanNamedNodeMap*const theAttributes= theElement->getAttributes();"
+                 " const XalanNode*const theSpaceAttribute= theAttributes==0?0:theAttributes->getNamedItem(Constants::ATTRNAME_XMLSPACE);"
+                 " if(theSpaceAttribute!=0){ const XalanDOMString&theValue=theSpaceAttribute->getNodeValue(); if(theValue==Constants::ATTRVAL_PRESERVE){ return true; }"
+                 " else if(theValue==Constants::ATTRVAL_DEFAULT){ return false; } } theElement=theElement->getParentNode(); } return false; }") + "$", xb,
+             "isXMLSpacePreserved: nearest xml:space on the ancestor elements, preserve / default decide, other values skipped, none: false")
+        cst = _norm(read("XSLT/Constants.cpp"))
+        for name, val in (("ATTRNAME_XMLSPACE", "xml:space"), ("ATTRVAL_PRESERVE", "preserve"), ("ATTRVAL_DEFAULT", "default")):
+            if not re.search(r"::%s\.?=?[^;]*" % name, cst):
+                raise AnchorError("Constants::%s not found" % name)
+    elif re.search(r"xml:space|XMLSPACE|xmlspace|getAttribute", ib_raw, re.I):
+        raise AnchorError("internalShouldStripSourceNode mentions xml:space / attributes in an unrecognised way")
+    secn = _norm(secd)
+    fwd = re.search(lit("StylesheetExecutionContextDefault::shouldStripSourceNode(const XalanText&node){ assert(@ANY@); return m_stylesheetRoot->shouldStripSourceNode(node); }"), secn)
+    rtf = re.search(lit("StylesheetExecutionContextDefault::shouldStripSourceNode(const XalanText&node){ assert(@ANY@); if(m_stylesheetRoot->shouldStripSourceNode(node)==false){ return false; }"
+                        " else { const XalanDocument*const theOwner=node.getOwnerDocument(); if(theOwner!=0&& (theOwner==m_sourceTreeResultTreeFactory.get()||"
+                        " (m_usePerInstanceDocumentFactory==true&& m_documentAllocator.ownsObject( static_cast<const XalanSourceTreeDocument*>(theOwner))==true))){ return false; } return true; } }"), secn)
+    if not fwd and not rtf:
+        raise AnchorError("anchor not found: StylesheetExecutionContextDefault::shouldStripSourceNode forwards to the stylesheet root (optionally exempting result tree fragment documents)")
+    facts["rtf_nodes_exempt"] = bool(rtf)
 
     # --- (2a) NodeTester::test* ---------------------------------------------------------------------
     xpc = strip_comments(xp)
@@ -230,6 +252,11 @@ def gen_strip():
     need(lit("XPath::NodeTester::shouldStripSourceNode(const XalanText&context)const{ assert(@ANY@); return m_executionContext->shouldStripSourceNode(context); }"),
          xpn, "NodeTester::shouldStripSourceNode forwards to the execution context")
     facts["testers"] = testers
+    tn = _norm(function_body(xpc, r"XPath::NodeTester::testNode\s*\([^)]*\)\s*const\s*\{", "NodeTester::testNode"))
+    tn_plain = re.search(lit("if(nodeType!=XalanNode::TEXT_NODE|| shouldStripSourceNode(static_cast<const XalanText&>(context))==false)"), tn)
+    tn_cdata = re.search(lit("if((nodeType!=XalanNode::TEXT_NODE&& nodeType!=XalanNode::CDATA_SECTION_NODE)|| shouldStripSourceNode(static_cast<const XalanText&>(context))==false)"), tn)
+    if not tn_plain and not tn_cdata:
+        raise AnchorError("anchor not found: NodeTester::testNode: text (and CDATA section) nodes ask shouldStripSourceNode")
 
     # --- (2b) getNodeData families --------------------------------------------------------------------
     dshn = _norm(dsh)
@@ -286,6 +313,14 @@ def gen_strip():
     need(lit("XSLTEngineImpl::cloneToResultTree( const XalanText&node, bool overrideStrip){ assert(@ANY@); assert(@ANY@); if(overrideStrip==true|| m_executionContext->shouldStripSourceNode(node)==false){"
              " const XalanDOMString&data=node.getData(); characters(data.c_str(),0,data.length()); } }"), engn,
          "cloneToResultTree(XalanText, overrideStrip): copies unless stripped")
+    cd_plain = re.search(lit("case XalanNode::CDATA_SECTION_NODE: { const XalanDOMString&data=node.getNodeValue(); cdata(data.c_str(),0,data.length()); } break;"), engn)
+    cd_asks = re.search(lit("case XalanNode::CDATA_SECTION_NODE: if(overrideStrip==true|| m_executionContext->shouldStripSourceNode( static_cast<const XalanText&>(node))==false){"
+                            " const XalanDOMString&data=node.getNodeValue(); cdata(data.c_str(),0,data.length()); } break;"), engn)
+    if not cd_plain and not cd_asks:
+        raise AnchorError("anchor not found: cloneToResultTree: case CDATA_SECTION_NODE")
+    if bool(tn_cdata) != bool(cd_asks):
+        raise AnchorError("CDATA sections are treated as text for stripping by only one of NodeTester::testNode / cloneToResultTree")
+    facts["cdata_is_text_for_strip"] = bool(tn_cdata)
     copies = []
     # every call of the six-argument cloneToResultTree inside XSLTEngineImpl.cpp with its overrideStrip argument
     for m in re.finditer(r"(?<![:\w])cloneToResultTree\s*\(", engc):
@@ -341,8 +376,12 @@ def gen_strip():
     out += "Definition insert_before_equal : bool := %s.\n" % ("true" if m_is(facts["insert_cmp"], ">=") else "false")
     out += "(* Stylesheet::addImport inserts at m_imports.begin() *)\n"
     out += "Definition import_at_front : bool := %s.\n" % ("true" if facts["import_at_front"] else "false")
-    out += "(* internalShouldStripSourceNode looks at xml:space / attributes of the source *)\n"
+    out += "(* internalShouldStripSourceNode overrides a strip decision when isXMLSpacePreserved(parent) (nearest xml:space on the ancestors) *)\n"
     out += "Definition consults_xml_space : bool := %s.\n\n" % ("true" if facts["consults_xml_space"] else "false")
+    out += "(* StylesheetExecutionContextDefault::shouldStripSourceNode answers false for the nodes of result tree fragments *)\n"
+    out += "Definition rtf_nodes_exempt : bool := %s.\n" % ("true" if facts["rtf_nodes_exempt"] else "false")
+    out += "(* NodeTester::testNode and the CDATA case of cloneToResultTree ask shouldStripSourceNode for CDATA section nodes *)\n"
+    out += "Definition cdata_is_text_for_strip : bool := %s.\n\n" % ("true" if facts["cdata_is_text_for_strip"] else "false")
     out += "(* ElemNumber::getPreviousNode, level any: the from pattern is tested on every node of the backwards walk (true)\n   or only when the walk moves to a parent (false) *)\n"
     out += "Definition number_from_on_every_node : bool := %s.\n" % ("true" if facts["number_from_on_every_node"] else "false")
     out += "(* ElemNumber::findPrecedingOrAncestorOrSelf tests from on the context node itself *)\n"
